@@ -43,6 +43,8 @@ void sdk_input_set(int pin, int level); /* changes level, raises edge irq   */
 #define SDK_ESP_SCRIPT_MAX 4096
 extern int sdk_esp_script[SDK_ESP_SCRIPT_MAX];
 extern int sdk_esp_script_len, sdk_esp_script_pos;
+extern int sdk_connect_script[16];
+extern int sdk_connect_script_len, sdk_connect_script_pos;
 extern int sdk_esp_default;           /* result when the script is exhausted */
 extern struct espconn *sdk_last_conn; /* last conn passed to *_connect       */
 extern struct espconn *sdk_listen_conn;
